@@ -96,6 +96,13 @@ func init() {
 		Unverified: []string{"fairness of sync.Mutex and of the Go scheduler (eventual admission is reduced to the quiescent invariant)", "WaitEmpty (reads size without the lock; not among the operations the property quantifies over)"},
 	})
 	props = append(props, &PropCfg{
+		ID:    "C30",
+		Pkgs:  []string{"./internal/tlcodegen"},
+		Funcs: "",
+		Scope: "totality of the type comparison of the compatibility linter (closure compareTypes of checkCombinatorsBackwardCompatibility): for every pair of type references of any depth it returns a verdict - no index, nil or slice panic - so an unsafe edit inside a field type cannot escape rejection by crashing the linter",
+		Unverified: []string{"that the verdict is 'reject' for every listed kind of unsafe edit (the classification itself: field/constructor removal, mask changes, bare-to-union) - whole-schema semantics, not expressible as a function contract within reach", "the rest of checkCombinatorsBackwardCompatibility and CheckBackwardCompatibility (maps, closures over schema-wide state)"},
+	})
+	props = append(props, &PropCfg{
 		ID:    "C41",
 		Pkgs:  []string{"./internal/vkgo/pkg/algo"},
 		Funcs: "",
